@@ -86,10 +86,19 @@ def sys_harmonic(arg):
     atoms = Atoms("Cu" * natoms, positions=centers + 0.1, cell=[60, 60, 60], pbc=False)
     atoms.set_masses([1.0] * natoms)
     atoms.calc = Wells(k, centers)
+    tethered = variant.endswith("_half_tethered")
+    if tethered:
+        # half of every spring is an ASE restraint (Hookean tether to the well centre), half the calculator: the particle is
+        # bound by the same total spring, its potential energy is what atoms.get_potential_energy() reports
+        from ase.constraints import Hookean
+
+        atoms.calc = Wells(k / 2, centers)
+        atoms.set_constraint([Hookean(a1=i, a2=tuple(float(x) for x in centers[i]), k=k / 2, rt=0.0) for i in range(natoms)])
     lab = np.arange(natoms)
-    if variant in ("hamiltonian", "hamiltonian_rebuilt"):
+    if variant in ("hamiltonian", "hamiltonian_rebuilt", "hamiltonian_coarse", "hamiltonian_half_tethered"):
         mc = HamiltonianCanonical(atoms, temperature=T, max_cycles=1, seed=seed)
-        mc.add_move(HamiltonianDisplacementMove(operation=Verlet(dt=3.0, max_steps=6)))
+        # (coarse: a time step at which a good part of the trajectories is rejected)
+        mc.add_move(HamiltonianDisplacementMove(operation=Verlet(dt=9.0, max_steps=4) if variant == "hamiltonian_coarse" else Verlet(dt=3.0, max_steps=6)))
         if variant == "hamiltonian_rebuilt":
             # the long history contains a stop: after a quarter of the run the simulation is rebuilt from its dictionary
             # (every component comes back by its registered name) and continued with a fresh calculator
@@ -100,7 +109,7 @@ def sys_harmonic(arg):
             mc.atoms.calc = Wells(k, centers)
     else:
         mc = Canonical(atoms, temperature=T, max_cycles=natoms, seed=seed)
-        if variant == "ball":
+        if variant in ("ball", "ball_half_tethered"):
             mc.add_move(DisplacementMove(lab, Ball(2.2 * sig)))
         elif variant == "box":
             mc.add_move(DisplacementMove(lab, Box(1.3 * sig)))
@@ -111,8 +120,12 @@ def sys_harmonic(arg):
         else:  # move * 2
             mc.add_move(DisplacementMove(lab, Ball(2.0 * sig)) * min(2, natoms), criteria=CanonicalCriteria())
     e = np.empty(n)
+    rejected = 0
     for i, _ in enumerate(mc.srun(n)):
-        e[i] = mc.context.last_potential_energy
+        e[i] = mc.atoms.get_potential_energy() if tethered else mc.context.last_potential_energy
+        rejected += sum(1 for _, v in mc.move_history if v is False)
+    if variant == "hamiltonian_coarse" and not 0.05 * n < rejected:
+        return name, {"E": np.full(n, np.nan)}   # (vacuous: the coarse variant must really reject)
     return name, {"E": e / kT}
 
 
@@ -270,7 +283,7 @@ def run(tier: str) -> int:
 
     def jobs_for(scale=1, salt=0):
         jobs = []
-        for v in ("ball", "box", "sphere", "composite_op", "move_x2", "hamiltonian", "hamiltonian_rebuilt"):
+        for v in ("ball", "box", "sphere", "composite_op", "move_x2", "hamiltonian", "hamiltonian_rebuilt", "hamiltonian_coarse", "ball_half_tethered", "hamiltonian_half_tethered"):
             for na in ((3,) if tier == "quick" and v not in ("ball",) else (1, 3)):
                 for s in range(nseeds):
                     jobs.append(("harmonic", (f"harmonic:{v}:N={na}", base + 17 * s + salt + 1, n * scale, v, na)))
@@ -330,6 +343,8 @@ def run(tier: str) -> int:
             rep.count((name, obs, stat))
             if len(rep.samples) < 6:
                 rep.sample({"system": name, "observable": f"{stat}({obs})", "target": tgt, "measured": round(mean, 4), "stderr": round(err, 4), "z": round(z, 2)})
+            if not np.isfinite(z):
+                rep.error(f"{name}: {stat}({obs}) could not be judged (the system did not exercise what it is for, e.g. a coarse Hamiltonian run without rejections)")
             if abs(z) > 6:
                 suspicious.append((name, obs, stat, tgt, mean, err, z))
     # re-run once with a doubled sample and independent seeds before reporting
